@@ -184,9 +184,24 @@ fn temp(a: &[&str]) -> String {
     }
 }
 
+/// `ftxt <amount> <precision|->`: the amount type's own `Display` (binary64: what std prints), as hex text;
+/// `parse` appended: the text read back with `str::parse` (bits)
+fn ftxt(a: &[&str]) -> String {
+    let x: AmountT = dec_amt(a[0]);
+    let t = match a[1] {
+        "-" => format!("{}", x),
+        p => {
+            let p: usize = p.parse().expect("precision");
+            format!("{:.*}", p, x)
+        }
+    };
+    format!("h{}", hex(&t))
+}
+
 pub fn dispatch(op: &str, a: &[&str]) -> Option<String> {
     match op {
         "si" => Some(si(a)),
+        "ftxt" => Some(ftxt(a)),
         #[cfg(feature = "temp")]
         "temp" => Some(temp(a)),
         _ => None,
